@@ -1,0 +1,44 @@
+//go:build verif
+
+// Hooks and read-only accessors for the verification harness.
+// Only compiled with `-tags verif`; see verif_off.go for the default.
+
+package environment
+
+import "github.com/skx/evalfilter/v2/object"
+
+// VerifCacheHook, when set, is called around the accesses to the shared
+// regexp cache: "lock" once the lock is held, "read"/"write" just before the
+// map is read/written, "unlock" just before the lock is released.
+var VerifCacheHook func(ev string, key string)
+
+func verifCache(ev string, key string) {
+	if h := VerifCacheHook; h != nil {
+		h(ev, key)
+	}
+}
+
+// VerifScopeDepth returns the number of open scopes.
+func (e *Environment) VerifScopeDepth() int { return len(e.local) }
+
+// VerifGlobals returns a copy of the global variables.
+func (e *Environment) VerifGlobals() map[string]object.Object {
+	out := make(map[string]object.Object, len(e.global))
+	for k, v := range e.global {
+		out[k] = v
+	}
+	return out
+}
+
+// VerifScopes returns copies of the open scopes, outermost first.
+func (e *Environment) VerifScopes() []map[string]object.Object {
+	var out []map[string]object.Object
+	for _, s := range e.local {
+		c := make(map[string]object.Object, len(s))
+		for k, v := range s {
+			c[k] = v
+		}
+		out = append(out, c)
+	}
+	return out
+}
